@@ -215,7 +215,16 @@ def q1(ctx):
     nu = [n for n in walk_local(rh.node) if isinstance(n, ast.Call) and (dotted(n.func) or "").endswith("unquote")]
     obs.append(ctx.ob(len(nu) == 1, rh.qualname, rh.where, "read_href_element unquotes exactly once", "one unquote", "read_href_element applies unquote %d times" % len(nu)))
     sa = ctx.own_method(WD + ".Status", "aselement")
-    ok = any(isinstance(n, ast.Call) and (dotted(n.func) or "") == "create_href" and n.args and dotted(n.args[0]) == "self.href" for n in walk_local(sa.node))
+    scfg = ctx.cfg(sa)
+    sdu = DefUse(scfg)
+    ok = False
+    for n in scfg.stmt_nodes():
+        for c in n.calls():
+            if (dotted(c.func) or "").split(".")[-1] == "create_href" and c.args and isinstance(c.args[0], ast.Attribute) and c.args[0].attr == "href":
+                bo = origins(sdu, n, c.args[0].value)
+                # the Status object itself, also when a helper takes it as an argument (`status = self`)
+                if bo and all(o.kind == "param" and o.name == "self" for o in bo):
+                    ok = True
     obs.append(ctx.ob(ok, sa.qualname, sa.where, "Status.aselement uses create_href(self.href)", "create_href(self.href)", "Status.aselement does not build its href through create_href"))
     return obs
 
@@ -448,7 +457,7 @@ def l1(ctx):
 PROP_FUNCS = {"get_all_properties", "get_properties", "get_property_names", "get_properties_with_data", "get_property_from_name"}
 
 
-@rule("C16", "H1", floor=5, kind="S",
+@rule("C16", "H1", floor=4, kind="S",
       desc="href/resource pairing: inside a loop over (href, resource) pairs, the property getters are given the href "
            "bound by the same loop as the resource (href-valued properties are resolved against it)")
 def h1(ctx):
@@ -461,9 +470,24 @@ def h1(ctx):
         for n in cfg.stmt_nodes():
             for c in n.calls():
                 d = (dotted(c.func) or "").split(".")[-1]
-                if d not in PROP_FUNCS:
-                    continue
                 args = list(c.args)
+                if d not in PROP_FUNCS:
+                    # a helper unknown to the reference tree (function, or class whose instance carries the pair) that is
+                    # handed the loop's resource: same obligation for the argument in front of it
+                    try:
+                        res = ctx.P.resolve_call(fi, c)
+                    except Exception:
+                        continue
+                    new_cls = res.how.startswith("ctor:") and res.how.split(":", 1)[1] not in (ctx.cfgs.inliner.reference or ())
+                    new_fn = bool(res.targets) and not res.how.startswith("ctor") and all(ctx.cfgs.inliner.is_new(t) for t in res.targets)
+                    if not (new_cls or new_fn):
+                        continue
+                    pos = [i for i, a in enumerate(args) if isinstance(a, ast.Name) and any(x.kind == "for" and isinstance(x.node.ast.target, ast.Tuple)
+                                                                                             for x in du.reaching(n, a.id))]
+                    pos = [i for i in pos if i >= 1]
+                    if not pos:
+                        continue
+                    args = args[pos[-1] - 1:]
                 if d == "get_properties_with_data":
                     args = args[1:]
                 if len(args) < 2 or not isinstance(args[1], ast.Name):
@@ -477,6 +501,45 @@ def h1(ctx):
                                   "`%s` and `%s` are bound by the same loop" % (src(args[0]), src(args[1])),
                                   "`%s` is given the href `%s` together with the resource `%s` of the current iteration: href-valued properties of each member "
                                   "(add-member, home sets, principal-URL) are resolved against the wrong base" % (d, src(args[0]), src(args[1]))))
+    
+        # a helper object unknown to the reference tree that is constructed with the pair inside the loop (its
+        # constructor is spliced into the CFG, so the call is looked up in the source): same obligation
+        parents = {}
+        for p_ in ast.walk(fi.node):
+            for ch in ast.iter_child_nodes(p_):
+                parents[id(ch)] = p_
+        for c in ast.walk(fi.node):
+            if not (isinstance(c, ast.Call) and dotted(c.func)):
+                continue
+            try:
+                kind_, obj_ = ctx.P.resolve_dotted(fi.module, dotted(c.func), fi)
+            except Exception:
+                continue
+            if kind_ != "class" or obj_.qualname in (ctx.cfgs.inliner.reference or ()):
+                continue
+            loops = []
+            x = c
+            while id(x) in parents:
+                x = parents[id(x)]
+                if isinstance(x, (ast.FunctionDef, ast.AsyncFunctionDef, ast.Lambda)) and x is not fi.node:
+                    loops = None
+                    break
+                if isinstance(x, (ast.For, ast.AsyncFor)) and isinstance(x.target, ast.Tuple) and all(isinstance(e_, ast.Name) for e_ in x.target.elts):
+                    loops.append(x)
+            if not loops:
+                continue
+            lp = loops[0]
+            bound = [e_.id for e_ in lp.target.elts]
+            for j, a_ in enumerate(c.args):
+                if j >= 1 and isinstance(a_, ast.Name) and a_.id == bound[-1]:
+                    prev = c.args[j - 1]
+                    rebound = {t_.id for st in ast.walk(ast.Module(body=lp.body, type_ignores=[])) if isinstance(st, (ast.Assign, ast.AugAssign, ast.AnnAssign))
+                               for t_ in ast.walk(st) if isinstance(t_, ast.Name) and isinstance(t_.ctx, ast.Store)}
+                    ok = isinstance(prev, ast.Name) and prev.id in bound[:-1] and prev.id not in rebound and a_.id not in rebound
+                    obs.append(ctx.ob(ok, q, "%s:%d" % (fi.module.rel, c.lineno), "%s(href, resource) use the pair of one iteration" % obj_.name,
+                                      "`%s` and `%s` are bound by the same loop" % (src(prev), src(a_)),
+                                      "`%s` is given the href `%s` together with the resource `%s` of the current iteration: href-valued properties of each member "
+                                      "(add-member, home sets, principal-URL) are resolved against the wrong base" % (obj_.name, src(prev), src(a_))))
     return obs
 
 
